@@ -371,7 +371,8 @@ def r6(R):
 
 
 @rule('C07.R7', 'the mapping storage keeps the newest revision not later '
-      'than the pack time and sweeps from the root', min_instances=1)
+      'than the pack time and sweeps from the root', props=['C15'],
+      min_instances=1)
 def r7(R):
     cls = R.prog.cls(MS)
     f = R.method(cls, 'pack')
@@ -416,6 +417,27 @@ def r7(R):
     R.count(stats)
     for v in vs:
         R.violation(v.node, v.message, g, v.path)
+    # the sweep follows the references of EVERY retained revision (a
+    # snapshot between the pack time and a later unlinking still needs them)
+    ok = False
+    for l in walk_local(f.node):
+        if isinstance(l, ast.For) and isinstance(l.iter, ast.Call) and \
+                isinstance(l.iter.func, ast.Attribute) and \
+                l.iter.func.attr in ('values', 'items') and not \
+                l.iter.args:
+            pv = provenance(l.iter.func.value, g.root, F)
+            if ('path', ('self', '_data')) in pv and any(
+                    isinstance(c, ast.Call) and isinstance(
+                        c.func, ast.Name) and c.func.id == 'referencesf'
+                    for c in ast.walk(l)):
+                ok = True
+    if not ok:
+        R.violation((f.module.relpath, f.qualname, 'sweep all revisions'),
+                    'the garbage-collection sweep does not extract the '
+                    'references of every retained revision of an object: an '
+                    'object that was reachable at the pack time and is '
+                    'unlinked later is collected, and snapshots in between '
+                    'get POSKeyError')
     roots = [x for x in walk_local(f.node) if isinstance(x, ast.Assign) and
              isinstance(x.value, (ast.Set, ast.List)) and
              len(x.value.elts) == 1 and dotted(x.value.elts[0]) and
